@@ -144,6 +144,10 @@ def finish(pid, tier, seed, level, scenarios, res, rules_owned, t0, rule_desc, n
                model_drift_notes=len(res['drifts']),
                harness_cpu_s=round(res['harness_s'], 1), tlc_cpu_s=round(res['tlc_s'], 1), checker_cmd=checker_cmd)
     if extra_cov: cov.update(extra_cov)
+    dm = (extra_cov or {}).get('design_model')
+    if isinstance(dm, dict) and 'states' in dm:
+        cov['states'] += dm['states']; cov['transitions'] += dm.get('transitions', 0)
+    cov['other_rule_names'] = sorted(set(r for v in res['viols'] for r in v['rules'] if rules_owned is not None and r not in rules_owned))
     vlib.write_evidence(pid, tier, seed, level, cov, time.time()-t0, nviol, assumptions)
     if res['drifts']:
         d0 = res['drifts'][0]
